@@ -238,21 +238,21 @@ def r4_follow_last_only(ctx):
             ok_none = True
     (out.append(holds("C07.R4", "open_follow:none-base", b.where(), "missing final component -> error before the following open")) if ok_none else
      out.append(violated("C07.R4", "open_follow:none-base", b.where(), "following open reachable without a final component")))
-    # fallback for non-links uses self.open (forced O_NOFOLLOW)
+    # fallback for non-links uses self.open (forced O_NOFOLLOW): when the readlink probe fails, the following open
+    # is reachable only if the failure says "this is a link whose body cannot be read" (ENAMETOOLONG)
+    from ..cut import errno_branches, failure_edges
     fb = [t for t in b.calls(PH + "::open")]
     rl = [t for t in b.calls(PH + "::readlink")]
     okfb = False
+    brs = errno_branches(b, T)
+    link_eq = [e.key() for br in brs if br["errno"] == ENAMETOOLONG for e in br["eq"]]
     for r_ in rl:
-        for t in b.calls("std::result::Result::<T, E>::is_err", "std::result::Result::<T, E>::is_ok"):
-            o = T.origins_of_arg(t, 0)
-            if any(x.kind == "call" and x.term is r_ for x in o):
-                be = bool_edges(b, t)
-                if not be:
-                    continue
-                failed = be["true"] if t.callee.endswith("is_err") else be["false"]
-                reach = cfg.edge_targets_reachable(failed)
-                if sinks and sinks[0].bb not in reach and any(x.bb in reach for x in fb):
-                    okfb = True
+        fe = failure_edges(b, T, r_)
+        if not fe:
+            continue
+        reach = cfg.edge_targets_reachable(fe[0], cut_edges=link_eq)
+        if sinks and sinks[0].bb not in reach and any(x.bb in reach for x in fb):
+            okfb = True
     (out.append(holds("C07.R4", "open_follow:non-link-fallback", b.where(), "targets that are not links are opened through the no-follow ProcfsHandle::open")) if okfb else
      out.append(violated("C07.R4", "open_follow:non-link-fallback", b.where(), "non-link targets can reach the following open")))
     return out
